@@ -160,7 +160,7 @@ def generate(seed, tier, batch):
         kinds = ["hom", "hom", "het"] + (["thr"] if backend == "bosonic" else [])
         return {"kind": "dyne", "backend": backend, "hbar": hbar, "n": n, "prep": prep, "meas": gen_meas(r, n, kinds),
                 "rejections": r.choice([0, 0, 1, 3, 6]) if backend == "bosonic" else 0, "proposal": r.choice(["target", "peak"]),
-                "native": batch == "native-rng", "tape": seed}
+                "native": batch == "native-rng", "tape": seed, "refused_first": backend == "gaussian" and batch != "native-rng" and r.random() < 0.2}
     if batch == "xsel":
         n = r.randint(2, 4)
         prep = gen_gauss_prep(r, n, r.randint(2, 7))
@@ -535,7 +535,7 @@ class DyneOracle:
             return None
         # ---- bosonic rejection sampler: choice -> multivariate_normal -> random
         if name == "choice":
-            a = np.asarray(args[0])
+            a = np.arange(int(args[0])) if isinstance(args[0], (int, np.integer)) else np.asarray(args[0])
             p = np.asarray(kwargs.get("p"), dtype=float)
             if not np.isfinite(p).all() or abs(p.sum() - 1) > 1e-9 or (p < -1e-15).any():
                 self.w.violation("born", "bosonic-proposal-weights", {"p": p.tolist()}, feats)
@@ -637,6 +637,36 @@ def run_dyne(script, w, backend, collect=None, shared_prog=None):
         simenv.rng.handler = handler
         prog = shared_prog if shared_prog is not None else build_program(prog_spec)
         eng = simenv.engine(backend)
+        if script.get("refused_first") and shared_prog is None and backend == "gaussian":
+            # history: the state is prepared by one run; a measurement request the backend refuses (several shots of a homodyne /
+            # heterodyne measurement) must leave the simulator exactly as it was; then the real measurement runs as a successor program
+            prep_prog = build_program({"n": script["n"], "ops": script["prep"]})
+            meas_only = build_program({"ops": build_meas_ops(script)}, parent=prep_prog)
+            meas_again = build_program({"ops": build_meas_ops(script)}, parent=prep_prog)
+            w.step("run_prep", backend=backend)
+            eng.run(prep_prog)
+            s0 = rm.snapshot(eng.backend.state(), sf.hbar)
+            w.fault("refused_request:multi_shot_dyne")
+            refused = False
+            try:
+                eng.run(meas_only, shots=3)
+            except NotImplementedError:
+                refused = True
+            except Violation:
+                return None, oracle, None
+            if refused:
+                oracle.cur = None
+                oracle.n_meas = 0
+                oracle.results = []
+                s1 = rm.snapshot(eng.backend.state(), sf.hbar)
+                d0 = rm.mixtures_close(s0, s1, random.Random(script["tape"]), tol=1e-9)
+                if d0:
+                    w.violation("conditioning", "refused-measurement-request-changed-the-state", {"diff": d0, "meas": script["meas"][0]}, ["backend=" + backend, "refused-request"])
+                    return None, oracle, None
+                w.probes["refused_request_left_state_unchanged"] += 1
+                prog = meas_again
+            else:
+                return None, oracle, None  # the request was served (multi-shot supported): a different history, not this scenario
         w.step("run", backend=backend, shared_program=shared_prog is not None)
         try:
             res = eng.run(prog)
